@@ -346,7 +346,43 @@ def setslice(E, obj, lo, hi, v):
         h = E.reg.setslice_hook(obj.cls)
         if h:
             return h(E, obj, lo, hi, v)
+    if isinstance(obj, ListV) and isinstance(v, ListV):
+        # lst[lo:hi] = other list (no step): lst becomes lst[:lo'] + other + lst[hi':] with Python's clamping of
+        # the bounds; the old contents are captured as terms first, so `other is lst` is covered as well
+        if not obj.nn and not E.spec:
+            E.oblige("safe", obj.t != 0, "slice-assigned list is not None")
+        n = E.llen(obj)
+        a, b = clamp_bounds(E, lo, hi, n)
+        nv = E.llen(v)
+        if v.et is None:
+            return delslice(E, obj, lo, hi)
+        if obj.et is None:
+            obj.et = v.et
+        if obj.et.key() != v.et.key():
+            raise Unsupported("slice assignment between lists of different element types")
+        arrs = [z3.Lambda([KLAM], z3.If(KLAM < a, z3.Select(x, KLAM),
+                                        z3.If(KLAM < a + nv, z3.Select(y, KLAM - a),
+                                              z3.Select(x, KLAM - nv + (b - a)))))
+                for x, y in zip(E.larrs(obj), E.larrs(v))]
+        E.set_larrs(obj, arrs)
+        E.set_llen(obj, n - (b - a) + nv)
+        return
     raise Unsupported("slice assignment on %r" % (obj,))
+
+
+def list_repeat(E, a, b):
+    """`lst * n` / `n * lst` for a ONE-element list and an int count (symbolic or concrete): a new list of
+    max(n, 0) copies of the element.  Longer operands are outside the subset."""
+    lv, cnt = (a, b) if isinstance(a, ListV) else (b, a)
+    cnt = E.unopt(cnt, "repetition count")
+    if kind_of(cnt) not in ("int", "bool"):
+        raise PyRaise(ExcV(TypeError, ("can't multiply sequence by non-int",)))
+    n = z3.simplify(E.llen(lv))
+    if not (z3.is_int_value(n) and n.as_long() == 1) or lv.et is None:
+        raise Unsupported("list repetition of a list that is not a one-element list (line %d)" % E.cur_line)
+    c = zint(cnt)
+    arrs = [z3.K(z3.IntSort(), z3.Select(x, z3.IntVal(0))) for x in E.larrs(lv)]
+    return E.new_list(lv.et, z3.If(c > 0, c, z3.IntVal(0)), arrs, kind=lv.kind)
 
 
 def delslice(E, obj, lo, hi):
@@ -384,6 +420,11 @@ def iter_values(E, it):
         if z3.is_int_value(lo) and z3.is_int_value(hi):
             return list(range(lo.as_long(), hi.as_long()))
         return None
+    if isinstance(it, SymRangeStep):
+        lo, hi = z3.simplify(it.lo), z3.simplify(it.hi)
+        if z3.is_int_value(lo) and z3.is_int_value(hi):
+            return list(range(lo.as_long(), hi.as_long(), it.step))
+        return None
     if isinstance(it, Enumerated):
         inner = iter_values(E, it.inner)
         if inner is None:
@@ -418,6 +459,9 @@ def iter_len(E, it):
         return E.llen(it)
     if isinstance(it, SymRange):
         return z3.If(it.hi > it.lo, it.hi - it.lo, z3.IntVal(0))
+    if isinstance(it, SymRangeStep):
+        d = (it.hi - it.lo) if it.step > 0 else (it.lo - it.hi)
+        return z3.If(d > 0, d, z3.IntVal(0))
     if isinstance(it, Enumerated):
         return iter_len(E, it.inner)
     if isinstance(it, Reversed):
@@ -442,6 +486,8 @@ def iter_at(E, it, i):
         return E.lget(it, i)
     if isinstance(it, SymRange):
         return Sym(it.lo + i, "int")
+    if isinstance(it, SymRangeStep):
+        return Sym(it.lo + it.step * i, "int")
     if isinstance(it, Enumerated):
         return (Sym(i, "int"), iter_at(E, it.inner, i))
     if isinstance(it, Reversed):
@@ -462,6 +508,12 @@ def iter_at(E, it, i):
 class SymRange:
     def __init__(self, lo, hi):
         self.lo, self.hi = lo, hi
+
+
+class SymRangeStep:
+    """range(lo, hi, step) with symbolic bounds and the concrete step +1 or -1"""
+    def __init__(self, lo, hi, step):
+        self.lo, self.hi, self.step = lo, hi, step
 
 
 class Enumerated:
@@ -493,7 +545,9 @@ def comprehension(E, n):
     it = E.eval(g.iter)
     seq = iter_values(E, it)
     if seq is None:
-        raise Unsupported("comprehension over symbolic-length sequence (line %d)" % E.cur_line)
+        if not g.ifs and isinstance(it, (SymRange, SymRangeStep)) and isinstance(g.target, ast.Name) and not E.spec:
+            return _map_comprehension(E, n, g, it)
+        return _filter_comprehension(E, n, g, it)
     out = []
     saved = dict(E.frame.env)
     for v in seq:
@@ -511,6 +565,72 @@ def comprehension(E, n):
             del E.frame.env[k]
     E.frame.env.update(saved)
     return PyList(out)
+
+
+def _filter_comprehension(E, n, g, it):
+    """[x for x in L if cond(x)] over a list of symbolic length: SOUND OVER-APPROXIMATION of the result -
+    a new list whose elements are elements of L (at strictly increasing source indices, so source order is kept)
+    that satisfy cond.  That every satisfying element is included is NOT stated (callers get less than Python
+    guarantees, never more)."""
+    if not (isinstance(it, ListV) and isinstance(g.target, ast.Name) and isinstance(n.elt, ast.Name)
+            and n.elt.id == g.target.id and it.et is not None):
+        raise Unsupported("comprehension over symbolic-length sequence (line %d)" % E.cur_line)
+    src_n = E.llen(it)
+    res_n = E.fresh("flt_len", z3.IntSort())
+    E.assume(z3.And(res_n >= 0, res_n <= src_n))
+    idx = E.fresh("flt_idx", z3.ArraySort(z3.IntSort(), z3.IntSort()))
+    k = z3.Int("k!flt%d" % next(E.counter))
+    k2 = z3.Int("k2!flt%d" % next(E.counter))
+    src = E.larrs(it)
+    arrs = [z3.Lambda([KLAM], z3.Select(a, z3.Select(idx, KLAM))) for a in src]
+    rng = z3.And(k >= 0, k < res_n)
+    E.assume(z3.ForAll([k], z3.Implies(rng, z3.And(z3.Select(idx, k) >= 0, z3.Select(idx, k) < src_n))))
+    E.assume(z3.ForAll([k, k2], z3.Implies(z3.And(k >= 0, k < k2, k2 < res_n), z3.Select(idx, k) < z3.Select(idx, k2))))
+    saved = dict(E.frame.env)
+    E.spec += 1
+    try:
+        E.frame.env[g.target.id] = E.lget(it, z3.Select(idx, k))
+        conds = [E.tobool(E.truth(E.eval(c))) for c in g.ifs]
+    finally:
+        E.spec -= 1
+        E.frame.env.clear()
+        E.frame.env.update(saved)
+    if conds:
+        E.assume(z3.ForAll([k], z3.Implies(rng, z3.And(*conds))))
+    return E.new_list(it.et, res_n, arrs)
+
+
+def _map_comprehension(E, n, g, it):
+    """[elt(y) for y in range(...)] over a range of SYMBOLIC length, no filter: the element expression is evaluated
+    once for an arbitrary index i of the range (hypothesis 0 <= i < len, dropped again afterwards; obligations
+    raised meanwhile keep it) and abstracted into a lambda array.  Sound only if that evaluation neither forks,
+    nor writes the heap, nor introduces fresh symbols (they would be tied to the one index): each is checked and
+    is an Unsupported otherwise."""
+    L = z3.simplify(iter_len(E, it))
+    i = E.fresh("ci", z3.IntSort())
+    saved_env = dict(E.frame.env)
+    saved_pc, saved_assumed = list(E.pc), set(E.assumed)
+    heap0 = dict(E.heap)
+    fresh0 = dict(E.fresh_n)
+    npos, ndec, npend = E.pos, len(E.decisions), len(E.pending)
+    try:
+        E.pc.append(z3.And(i >= 0, i < L))
+        E.frame.env[g.target.id] = iter_at(E, it, i)
+        v = E.eval(n.elt)
+        forked = (E.pos, len(E.decisions), len(E.pending)) != (npos, ndec, npend)
+        wrote = any(E.heap.get(k) is not heap0.get(k) for k in set(E.heap) | set(heap0))
+        newsyms = any(E.fresh_n.get(k) != fresh0.get(k) for k in E.fresh_n)
+    finally:
+        E.pc[:] = saved_pc
+        E.assumed = saved_assumed
+        E.frame.env.clear()
+        E.frame.env.update(saved_env)
+    if forked or wrote or newsyms or not isinstance(v, Sym):
+        raise Unsupported("comprehension over a symbolic range whose element is not a pure scalar expression "
+                          "(line %d)" % E.cur_line)
+    et = type_of_value(v)
+    arr = z3.Lambda([KLAM], z3.substitute(v.t, (i, KLAM)))
+    return E.new_list(et, L, [arr])
 
 
 class PyList(list):
@@ -600,6 +720,8 @@ def call_python(E, f, args, kwargs):
             return SymRange(z3.IntVal(0), zint(vals[0]))
         if len(vals) == 2:
             return SymRange(zint(vals[0]), zint(vals[1]))
+        if len(vals) == 3 and isinstance(vals[2], int) and not isinstance(vals[2], bool) and vals[2] in (1, -1):
+            return SymRangeStep(zint(vals[0]), zint(vals[1]), vals[2])
         raise Unsupported("range with symbolic step")
     if f is _pyb.enumerate:
         return Enumerated(args[0])
